@@ -358,6 +358,7 @@ func (m *Machine) runPath(fn *ssa.Function, prefix []int64) (end pathEnd) {
 	m.sliceOf = map[*Value][]Value{}
 	m.clock = 0
 	m.model, m.modelValid, m.auxVars = nil, false, nil
+	m.fs = nil
 	defer func() {
 		r := recover()
 		switch r := r.(type) {
